@@ -12,7 +12,9 @@ ASSUMPTIONS = [
 
 def run(tier, seed):
     common.PID_ALIAS.update({"SQLM": "C02", "KVM": "C02"})
-    return common.drop_foreign(sqlm.suites_c02(tier, seed) + kvb.suites_c02(tier, seed), "C02")
+    # "when under its limit": which limit the relay applies is part of the statement -> the limit suites of C12 run here too
+    return common.drop_foreign(sqlm.suites_c02(tier, seed) + kvb.suites_c02(tier, seed)
+                               + sqlm.suites_c12(tier, seed) + kvb.suites_c12(tier, seed), "C02")
 
 
 def replay(payload):
